@@ -173,17 +173,21 @@ func (fs *Filespace) Writer(destPath string) (writer filesystem.Writer, err erro
 	dir.Lock()
 	defer dir.Unlock()
 	if node, err = dir.getNode(destNodeName); err != nil {
+		// lock the new file before it becomes visible: readers wait for Close instead of
+		// seeing the still empty file
 		file = NewFile(destNodeName, filesystem.DefaultUnixFileMode, time.Now(), []byte{})
+		handler := NewFileHandler(file)
 		if err = dir.addNode(file); err != nil {
+			handler.Close()
 			return nil, err
 		}
-	} else {
-		if file, ok = node.(*File); !ok {
-			return nil, goaterr.Errorf("Node %s must be a file", destPath)
-		}
-		file.time = time.Now()
+		return handler, nil
+	}
+	if file, ok = node.(*File); !ok {
+		return nil, goaterr.Errorf("Node %s must be a file", destPath)
 	}
 	handler := NewFileHandler(file)
+	file.time = time.Now()
 	file.data = []byte{}
 	return handler, nil
 }
@@ -236,7 +240,6 @@ func (fs *Filespace) WriteFile(destPath string, data []byte, filemode os.FileMod
 	if file, ok = node.(*File); !ok {
 		return goaterr.Errorf("Node %s must be a file", destPath)
 	}
-	file.time = time.Now()
 	file.setData(data)
 	return nil
 }
